@@ -118,17 +118,35 @@ def channel_current_rows(repo, col, R):
     if sel is None or len(gathers) < 3 or len(scatters) < 3:
         raise AnalysisError(f"Module._channel_currents: row selector / gathers ({len(gathers)}) / scatters ({len(scatters)}) not recognised")
     # what is handed to compute_current: entries of the local dictionaries filled in the loop are gathered arrays, never whole ones
+    entries = []   # (statement / expression, label, value expression) of every entry put into a local dictionary
     for n in ast.walk(loop):
         if isinstance(n, ast.Assign) and isinstance(n.targets[0], ast.Subscript) and isinstance(n.targets[0].value, ast.Name):
-            v = N(n.value)
+            entries.append((n, unparse(n.targets[0]), n.value))
+        elif isinstance(n, ast.DictComp):      # {s: states[s][rows] for s in names}
+            entries.append((n, "{" + unparse(n.key) + ": ...}", n.value))
+        elif isinstance(n, ast.Dict):          # {"radius": params["radius"][rows], ...}
+            for k_, v_ in zip(n.keys, n.values):
+                if k_ is not None:
+                    entries.append((v_, "{" + unparse(k_) + ": ...}", v_))
+    for n, lab_, val_ in entries:
+        if True:
+            v = N(val_)
             if T.find(v, lambda x: x.op == "param" and x.name in ("states", "params")) is None:
                 continue
             if T.find(v, lambda x: x.op == "mcall" and x.name in ("add", "set")) is not None:
                 continue  # a scatter (checked below)
             whole = v.op == "sub" and v.args[0].op == "param" and v.args[0].name in ("states", "params")
-            col.check(not whole, R, fi, f"`{unparse(n.targets[0])[:40]}` holds the entries of the channel's own rows", "dict[key][rows]",
+            col.check(not whole, R, fi, f"`{lab_[:40]}` holds the entries of the channel's own rows", "dict[key][rows]",
                       f"`{unparse(n)[:70]}` hands the whole array (all compartments) to the channel: rows of compartments that do not carry the "
                       f"channel are read, and the result no longer has the length of the channel's row selector", node=n)
+    # ... and the dictionaries handed to compute_current are those local ones, not the module-wide `states` / `params`
+    for n in ast.walk(loop):
+        if isinstance(n, ast.Call) and any(isinstance(c, ast.Attribute) and c.attr == "compute_current" for c in ast.walk(n.func)):
+            for a_ in n.args:
+                v = N(a_)
+                if v.op == "param" and v.name in ("states", "params"):
+                    col.bad(R, fi, f"`{unparse(a_)[:40]}` handed to compute_current holds the entries of the channel's own rows",
+                            f"`{unparse(n)[:70]}` hands the module-wide `{v.name}` dictionary (all compartments) to the channel", node=n)
     for n, rows in gathers:
         col.check(rows.key() == sel.key(), R, fi, f"`{unparse(n)[:50]}` is gathered at the channel's own rows", "one row selector",
                   f"`{unparse(n)[:70]}` is gathered with `{rows.short(60)}`, the channel's rows are `{sel.short(60)}`", node=n)
